@@ -67,6 +67,7 @@ def run(ctx):
     keys = ["alpha", "beta", "a/b", "", "kéy"]
     model = Model()
     maxpolls = 0
+    leaks_found = 0
     for i in range(n):
         mode = modes[i % len(modes)]
         is_async = mode.startswith("async")
@@ -124,7 +125,10 @@ def run(ctx):
         if keyed:
             req["key"] = key
         snap = snapshot_reqs(cache, keys)
-        reqs = snap + [req, {"op": "tmp_quiesce", "cache": cache, "timeout_ms": 10000}] + snap
+        # generous while the temp area behaves; once a permanent leak has been established there is no point in
+        # waiting 10 s for every further case
+        qms = 10000 if leaks_found == 0 else 200
+        reqs = snap + [req, {"op": "tmp_quiesce", "cache": cache, "timeout_ms": qms}] + snap
         resps = ctx.batch(mode, reqs, timeout=60)
         ns = len(snap)
         before, w, q, after = resps[:ns], resps[ns], resps[ns + 1], resps[ns + 2:]
@@ -168,12 +172,13 @@ def run(ctx):
         if left or py_left:
             # re-check: permanent leak or just slow?
             again = []
-            for _ in range(3):
-                q2 = ctx.call(mode, {"op": "tmp_quiesce", "cache": cache, "timeout_ms": 3000})
+            for _ in range(3 if leaks_found == 0 else 1):
+                q2 = ctx.call(mode, {"op": "tmp_quiesce", "cache": cache, "timeout_ms": 3000 if leaks_found == 0 else 100})
                 again = stray(cache)
                 if not again:
                     break
             if again:
+                leaks_found += 1
                 ctx.violation(sig + "|tmp-left", f"{point}: {len(again)} file(s) left outside index/content after the "
                               f"writer was gone: {[os.path.relpath(x, cache) for x in again[:3]]}", det)
                 for x in again:
